@@ -203,6 +203,10 @@ pub fn harness_main(gen: fn(&mut Rng, u64) -> String, run: fn(&str) -> String) {
 				format!("!panic {}", panic_text(e))
 			},
 		};
+		// an observation far larger than any input can justify (cases are at most a few hundred KiB, the largest legitimate
+		// rows - JSON texts - are cut at 400 KB by their harness) is itself the finding: an iterator or a serializer produced
+		// more items than its input bounds (seed C03-19 filled the checker's memory with 1 GB lines before this cap)
+		let obs = if obs.len() > 32 << 20 { format!("!panic harness: more output than the input bounds: an observation of {} bytes for a case of {} bytes", obs.len(), case.len()) } else { obs };
 		let mut o = out.lock();
 		writeln!(o, "OBS {} {}", id, obs).unwrap();
 		o.flush().unwrap();
